@@ -43,6 +43,7 @@ import ZygoVerif.Proofs.C01GenSites
 import ZygoVerif.Proofs.C01VM
 import ZygoVerif.Generated.PanicSites
 import ZygoVerif.Generated.StackSites
+import ZygoVerif.Generated.GenDispatch
 namespace ZygoVerif.C01
 open ZygoVerif.Parser ZygoVerif.Lexer ZygoVerif.GenSites
 
@@ -65,7 +66,7 @@ def Classified : List (String × Cover) :=
     ("AssignInstr.Execute", .behaviour), ("BindlistInstr.Execute", .residual), ("Blake2bUint64", .residual),
     ("ByteSliceToChunkedBase64StringNotJoined", .residual), ("Closing.TopScope", .behaviour), ("CountPostHook", .residual),
     ("CountPreHook", .residual), ("DebugInstr.Execute", .residual), ("DecodeChar", .sites),
-    ("EvalFunction", .residual), ("Generator.GenerateAssert", .sites), ("Generator.GenerateAssignment", .residual),
+    ("EvalFunction", .residual), ("Generator.GenerateAssert", .sites), ("Generator.GenerateAssignment", .sites),
     ("Generator.GenerateBegin", .sites), ("Generator.GenerateBreak", .sites), ("Generator.GenerateBuilder", .residual),
     ("Generator.GenerateCallBySymbol", .sites), ("Generator.GenerateCond", .sites), ("Generator.GenerateContinue", .sites),
     ("Generator.GenerateDef", .sites), ("Generator.GenerateDefmac", .sites), ("Generator.GenerateDefn", .sites),
@@ -171,9 +172,11 @@ theorem stack_pushes_typed : Generated.StackSites.pushSites.all pushOk = true :=
 /-! ## §2 Parser: the `{` look-ahead -/
 
 /-- `ParserPeekNextToken(extra)` answers a token only when the queue holds more than
-`extra` tokens: the guard of every `lexer.tokens[extra]` of `ParseExpression`. -/
+`extra` tokens: the guard of every `lexer.tokens[extra]` of `ParseExpression`.
+(`peekWaitRun false` = `ParserPeekNextToken`; with `true` it is `peekAfterSign`, which may
+answer `EndTk` on an empty queue and whose answer is never used as an index.) -/
 theorem peek_guards_index (extra : Nat) : ∀ (fuel : Nat) (s s' : PState) (t : Token),
-    peekWaitRun extra fuel s = .tok t s' → extra < s'.lex.tokens.length := by
+    peekWaitRun false extra fuel s = .tok t s' → extra < s'.lex.tokens.length := by
   intro fuel
   induction fuel with
   | zero => intro s s' t h; simp [peekWaitRun] at h
@@ -204,10 +207,10 @@ theorem peek_guards_index (extra : Nat) : ∀ (fuel : Nat) (s s' : PState) (t : 
 every look-ahead distance, every continuation and whatever input is still to come. -/
 theorem lookahead_index_in_range {α : Type} (i : Nat) (k : Token → Prog α) (s : PState) :
     Parser.run (.peekAt i k) s =
-      (match peekWaitRun i (s.size + 1) s with
+      (match peekWaitRun false i (s.size + 1) s with
        | .tok _ s' => Parser.run (k (s'.lex.tokens.getD i Token.zero)) s'
        | .stop st s' => (.stop st, s')) := by
-  cases hp : peekWaitRun i (s.size + 1) s with
+  cases hp : peekWaitRun false i (s.size + 1) s with
   | tok t s1 =>
     have hlt := peek_guards_index i _ _ _ _ hp
     rw [Parser.run, hp]
@@ -215,7 +218,7 @@ theorem lookahead_index_in_range {α : Type} (i : Nat) (k : Token → Prog α) (
   | stop st s1 =>
     rw [Parser.run, hp]
 
-example : ∃ s : PState, ∃ t s', peekWaitRun 1 10 s = .tok t s' :=
+example : ∃ s : PState, ∃ t s', peekWaitRun false 1 10 s = .tok t s' :=
   ⟨{ lex := { (LexState.init) with tokens := [⟨.symbol, ['a']⟩, ⟨.colonOperator, [':']⟩], stream := some [] } },
    _, _, rfl⟩
 
@@ -341,6 +344,30 @@ example : isErr (genForm (fun _ => pure ()) (fun _ => true) "cond" []) = true :=
 example : isOk (genForm (fun _ => pure ()) (fun _ => true) "and" []) = true := by decide
 example : isOk (genForm (fun _ => pure ()) (fun _ => true) "for" [.arr [.other, .other, .other]]) = true := by decide
 
+/-- `Generator.Generate`, the pair case: a dotted pair in code position is data; the
+panic-capable `GenerateAssignment` (`ListToArray` + `panicOn`) is reached by proper lists only
+— for every pair shape. -/
+theorem generate_pair_dispatch_no_panic (sub : Arg → P Unit) (hs : ∀ a, NoPanic (sub a)) (p : PairShape) :
+    NoPanic (genPair sub p) :=
+  genPair_np hs p
+
+example : isOk (genPair (fun _ => pure ()) ⟨false, some 1, true, 3⟩) = true := by decide
+
+/-- The guard order matters: testing for an assignment before testing for a proper list
+sends `(a = 1 \ 2)` into the `panicOn`. -/
+theorem assign_before_list_counterexample :
+    isPanic (Legacy.genPairAssignFirst (fun _ => pure ()) ⟨false, some 1, true, 3⟩) = true := by decide
+
+/-- … and in the current source the call of `GenerateAssignment` in the `*SexpPair` case of
+`Generate` IS dominated by the `IsList(e)` test (T1: regenerated from generator.go on every
+run; lexical domination through if-bodies, else branches and early returns). -/
+def guardedByIsList (c : String × List String) : Bool :=
+  c.1 != "GenerateAssignment" || c.2.contains "IsList(e)" || c.2.contains "!(!IsList(e))"
+
+theorem pair_dispatch_guarded :
+    Generated.GenDispatch.pairCase.all guardedByIsList = true ∧
+    (Generated.GenDispatch.pairCase.any fun c => c.1 == "GenerateAssignment") = true := by decide +kernel
+
 /-- Before fix cc83369 `(and)` / `(or)` indexed `args[-1]`. -/
 theorem legacy_and_counterexample (sub : Arg → P Unit) :
     Legacy.genShortCircuit sub [] = .error .panic := rfl
@@ -369,9 +396,11 @@ open ZygoVerif.VM in
 /-- Proved part. The typed pops of the VM (`PopExpr`, `PopExpressions`, the argument check
 of `CallFunction`, `wrangleOptargs`, scope pops, stack-mark pops) and the binding of a symbol
 neither panic on stacks without nil cells nor create a nil cell, and `restoreControlState`
-does not either AS LONG AS the recorded sizes do not exceed the present ones (`Fits`); the one
-remaining panic is `LexicalBindSymbol` on an EMPTY scope stack, and then the scope stack is
-empty in the final state.
+does not either AS LONG AS the recorded sizes do not exceed the present ones (`Fits`); one
+step of `Execute` for every instruction kind that does not call into the interpreter (24 of
+the 26 kinds of the model: all but `CallInstr{array}` and `CallExprInstr`) is safe in the same
+sense; the one remaining panic is `LexicalBindSymbol` on an EMPTY scope stack, and then the
+scope stack is empty in the final state.
 Missing for `C01NoPanic`: (1) `Fits` at every `restoreControlState` and a non-empty scope
 stack at every bind — the stack balance of generated code, C04's theorem, not available as a
 hypothesis-free fact about `VM.run`; without it `TruncateToSize` PADS the stack with nil
@@ -388,11 +417,14 @@ theorem c01_no_panic_partial :
     (∀ f n s, VMSafe.Good s → VMSafe.SafeAt s (callFunction f n)) ∧
     (∀ n s, VMSafe.Good s → VMSafe.SafeAt s (popScopes n)) ∧
     (∀ l k fuel s, VMSafe.Good s → VMSafe.SafeAt s (popToMark l k fuel)) ∧
-    (∀ x v s, VMSafe.Good s → VMSafe.SafeAt s (bindTop x v)) :=
+    (∀ x v s, VMSafe.Good s → VMSafe.SafeAt s (bindTop x v)) ∧
+    (∀ fuel i s, VMSafe.isCall i = false → VMSafe.Good s → VMSafe.SafeAt s (exec (fuel + 1) i)) :=
   ⟨VMSafe.popData_safe, VMSafe.popN_safe, VMSafe.restore_safe, VMSafe.callFunction_safe,
-   VMSafe.popScopes_safe, VMSafe.popToMark_safe, VMSafe.bindTop_safe⟩
+   VMSafe.popScopes_safe, VMSafe.popToMark_safe, VMSafe.bindTop_safe,
+   fun fuel i s hi hg => VMSafe.exec_step_safe fuel i hi s hg⟩
 
 example : VMSafe.Good VM.initSt := VMSafe.good_init
+example : VMSafe.isCall (.branch true 2) = false := rfl
 example : VMSafe.Fits ⟨0, 0, 0, 0, 1, 0⟩ VM.initSt := by
   refine ⟨Nat.zero_le _, Nat.zero_le _, ?_⟩
   simp [VM.initSt]
